@@ -101,7 +101,7 @@ def make_flow(desc: Dict[str, Any], grid: Grid) -> torch.Tensor:
     return (f * float(desc.get("amp", 0.5))).to(torch.float64 if desc["dtype"] == "float64" else torch.float32)
 
 
-LAYOUTS = ["contig", "fortran", "spatial_t", "strided", "chlast", "offset"]
+LAYOUTS = ["contig", "fortran", "spatial_t", "strided", "chlast", "offset", "grad"]
 
 
 def layout_tensor(t: torch.Tensor, layout: str) -> torch.Tensor:
@@ -124,9 +124,11 @@ def layout_tensor(t: torch.Tensor, layout: str) -> torch.Tensor:
         base = torch.zeros((t.shape[0] + 1,) + tuple(t.shape[1:]), dtype=t.dtype)
         base[1:] = t
         out = base[1:]
+    elif layout == "grad" and t.is_floating_point():
+        out = t.clone().requires_grad_(True)  # a tensor that is being optimised (the result of a registration)
     else:
         out = t.clone()
-    assert np.array_equal(out.numpy(), t.numpy(), equal_nan=t.is_floating_point())
+    assert np.array_equal(out.detach().numpy(), t.numpy(), equal_nan=t.is_floating_point())
     return out
 
 
